@@ -54,12 +54,14 @@ theorem moveNode_lists (cx : Ctx α) (a : Node α) (r : Option α) (o : MOut α)
         isForced cx.P cx.it = false) ∨
     ((moveNode cx a r o).act = o.act ∧ (moveNode cx a r o).inact = o.inact ++ [a]) := by
   unfold moveNode
-  by_cases hd : deactivates cx r = true
+  by_cases hd : deactivates cx a r = true
   · right; simp [hd]
   · left
     have hf : isForced cx.P cx.it = false := by
       unfold deactivates at hd
-      cases h : isForced cx.P cx.it <;> simp_all
+      cases h : isForced cx.P cx.it
+      · rfl
+      · rw [h, Bool.or_true] at hd; exact absurd rfl hd
     simp [hd, hf]
 
 theorem updTol_lists (cx : Ctx α) (r : α) (o : MOut α) :
